@@ -12,7 +12,7 @@ func init() {
 	Register(&Property{
 		ID: "C20",
 		Decides: "(R20.1) every (object, header, body) triple put into a last-value cache slot — the permanent databases' last block map / last suffrage proof, the block writer's and the temp database's copies — has all three components assigned from a non-nil source (never a never-assigned variable or a nil constant), and on the reload paths header and body come from the same decoded frame as the object; " +
-			"(R20.2) both permanent back-ends' constructors reload every slot the merge path maintains (encoder hint, block map, suffrage proof, network policy) and fail if a reload fails; (R20.3) writer and reader sides of each record kind use a compatible frame codec pair.; (R20.k) every leveldb key builder carries each of its parameters in full under its own prefix constant; (R20.j) jobs handed to a worker read only captured variables that the submitter does not assign again (no job works on a later batch/slot than the one it was created for); (R20.c) wherever a pool operation record is deleted, the operation is dropped from the operation cache (or there is no cache) before the function returns; (R20.s) a block writer's state cache is not shared across heights (object reads answer from the cache, byte reads and reads after a reopen from the store) — violated today, known finding; (R20.m) a permanent database takes over from a merged temp's state cache only states of the merged height (what the merge wrote to storage)",
+			"(R20.2) both permanent back-ends' constructors reload every slot the merge path maintains (encoder hint, block map, suffrage proof, network policy) and fail if a reload fails; (R20.3) writer and reader sides of each record kind use a compatible frame codec pair.; (R20.k) every leveldb key builder carries each of its parameters in full under its own prefix constant; (R20.j) jobs handed to a worker read only captured variables that the submitter does not assign again (no job works on a later batch/slot than the one it was created for); (R20.c) wherever a pool operation record is deleted, the operation is dropped from the operation cache (or there is no cache) before the function returns; (R20.s) a block writer's state cache is not shared across heights (object reads answer from the cache, byte reads and reads after a reopen from the store) — violated today, known finding; (R20.m) a permanent database takes over from a merged temp's state cache only states of the merged height (what the merge wrote to storage); (R20.l) as R19.9: a permanent database reads a state and fills its state cache under its merge lock; (R20.p) as R21.3: the block map is written in a commit batch after every other batch",
 		NotDecided: "byte equality of what is served before and after reopening for all histories; pool contents; what leveldb/redis persist.",
 		Run:        runC20,
 	})
@@ -344,33 +344,10 @@ func runC20(c *Ctx) {
 			}
 		}
 	}
-	// every record of the merged temp database is copied: the copy callback continues only after the
-	// record was put into the current batch, and a full batch is handed to a writer before it is replaced
-	if parent := c.Need("isaac/database.(*LeveldbPermanent).mergeTempDatabaseFromLeveldb"); parent != nil {
-		c.ArgIs(parent, "the whole temp database is iterated", c.CallsD(parent, "temp.st()#0.Iter(*)"), 1, 0, "nil")
-		if cl := c.ClosureWithCall(parent, "*.Put(k, v)"); cl != nil {
-			c.MP(cl, "copy continues only after the record was put into the batch", c.ReturnsD(cl, 0, "true"), 1, GCalled("*.Put(k, v)"))
-			// a record held back in another batch (the commit batch of C21) is written by the merge itself
-			for _, put := range c.CallsTo(cl, "(*storage/leveldb.PrefixStorageBatch).Put") {
-				if a := loadedVar(callCommon(put).Args[0]); a != nil && a.Comment != "batch" {
-					var commits []ssa.Instruction
-					for _, in := range c.CallsTo(parent, "(*storage/leveldb.PrefixStorage).Batch") {
-						if loadedVar(CallArg(in, 0)) == a {
-							commits = append(commits, in)
-						}
-					}
-					if c.Exists(parent, "the held-back batch "+a.Comment+" is written by the merge", commits, 1) {
-						c.MP(parent, "success only after the held-back batch "+a.Comment+" was written", c.SuccessReturns(parent), 1, GOk(globEscape(c.D(commits[0].(ssa.Value)))))
-					}
-				}
-			}
-			c.MP(cl, "a full batch is replaced only after it was handed to a writer", c.StoresD(cl, "&var:batch"), 1, GOk("*.NewJob(*)"))
-		} else {
-			c.Unresolved(parent, "copy callback", "closure putting (k, v) into the batch not found")
-		}
-		c.MP(parent, "success only after the last partial batch was handed to a writer", c.SuccessReturns(parent), 1,
-			GOk("*.NewJob(func:isaac/database.(*LeveldbPermanent).mergeTempDatabaseFromLeveldb$2)"), GCmp("var:batch.Len()", "<=", "0"))
-	}
+	permMergeCopyRules(c)
+	permStateCacheLockRule(c, "R20.l")
+	c.Rule("R20.p", "MustPass")
+	permCommitBatchRule(c)
 	// R20.4 loader gate (shared with C21): what a reopen loads is what was committed
 	loaderGateRules(c, "R20.4")
 }
@@ -502,5 +479,37 @@ func mergedCacheRule(c *Ctx, rule string) {
 			calls := c.CallsTo(fn, "(*isaac/database.basePermanent).mergeTempCaches")
 			c.ArgIs(fn, "the merged height handed to mergeTempCaches is the temp's", calls, 1, 0, "temp.Height()", "temp.mp.Manifest().Height()")
 		}
+	}
+}
+
+// permMergeCopyRules (C19, C20 under the caller's current rule): the LevelDB permanent merge copies
+// every record of the merged temp database.
+func permMergeCopyRules(c *Ctx) {
+	// every record of the merged temp database is copied: the copy callback continues only after the
+	// record was put into the current batch, and a full batch is handed to a writer before it is replaced
+	if parent := c.Need("isaac/database.(*LeveldbPermanent).mergeTempDatabaseFromLeveldb"); parent != nil {
+		c.ArgIs(parent, "the whole temp database is iterated", c.CallsD(parent, "temp.st()#0.Iter(*)"), 1, 0, "nil")
+		if cl := c.ClosureWithCall(parent, "*.Put(k, v)"); cl != nil {
+			c.MP(cl, "copy continues only after the record was put into the batch", c.ReturnsD(cl, 0, "true"), 1, GCalled("*.Put(k, v)"))
+			// a record held back in another batch (the commit batch of C21) is written by the merge itself
+			for _, put := range c.CallsTo(cl, "(*storage/leveldb.PrefixStorageBatch).Put") {
+				if a := loadedVar(callCommon(put).Args[0]); a != nil && a.Comment != "batch" {
+					var commits []ssa.Instruction
+					for _, in := range c.CallsTo(parent, "(*storage/leveldb.PrefixStorage).Batch") {
+						if loadedVar(CallArg(in, 0)) == a {
+							commits = append(commits, in)
+						}
+					}
+					if c.Exists(parent, "the held-back batch "+a.Comment+" is written by the merge", commits, 1) {
+						c.MP(parent, "success only after the held-back batch "+a.Comment+" was written", c.SuccessReturns(parent), 1, GOk(globEscape(c.D(commits[0].(ssa.Value)))))
+					}
+				}
+			}
+			c.MP(cl, "a full batch is replaced only after it was handed to a writer", c.StoresD(cl, "&var:batch"), 1, GOk("*.NewJob(*)"))
+		} else {
+			c.Unresolved(parent, "copy callback", "closure putting (k, v) into the batch not found")
+		}
+		c.MP(parent, "success only after the last partial batch was handed to a writer", c.SuccessReturns(parent), 1,
+			GOk("*.NewJob(func:isaac/database.(*LeveldbPermanent).mergeTempDatabaseFromLeveldb$2)"), GCmp("var:batch.Len()", "<=", "0"))
 	}
 }
